@@ -2,6 +2,9 @@
 import asyncio
 import os
 import random
+import shutil
+import tempfile
+from pathlib import Path
 
 from .. import gen
 from ..harness import CheckBase
@@ -129,6 +132,27 @@ class Check(CheckBase):
                 world.count('sessions_continued_after_add_key')
                 users = sorted(world.users)
                 passwords['ux'] = b'pw-ux'
+            # -- 1c. passwords longer than any internal key-size limit, with the documented blake2b user KDF: a key either
+            #        cannot be created with such a password, or passwords that share a long prefix do not unlock it
+            from .. import rep as rep_
+            long_pw = r.randbytes(70 + r.randrange(40))
+            for shared in (True, False):
+                sess = await world.repo('u0', fresh=True)
+                try:
+                    with rep_.capture():
+                        res = await sess.add_key(password=long_pw, shared=shared, settings={'encryption': {'kdf': {'name': 'blake2b'}}})
+                except Exception:
+                    world.count('long_password_keys_refused')
+                    continue
+                k_long = sess.serialize(res.new_key)
+                world.count('long_password_keys_created')
+                for label, pw in (('same', long_pw), ('first-64-bytes', long_pw[:64]), ('same-first-64-other-tail', long_pw[:64] + b'x' * (len(long_pw) - 64)),
+                                  ('one-byte-longer', long_pw + b'y'), ('last-byte-changed', long_pw[:-1] + bytes([long_pw[-1] ^ 1]))):
+                    ok, err = await world.try_unlock(k_long, pw)
+                    world.count('unlock_pairs')
+                    if ok != (pw == long_pw):
+                        world.finding('C06', f'a key created with a {len(long_pw)}-byte password (blake2b KDF) '
+                                             f'{"unlocks" if ok else "does not unlock"} with the password variant "{label}"')
             # -- 2. every user takes snapshots ---------------------------------------------------------------
             filesets = {}
             for u in users:
@@ -221,6 +245,37 @@ class Check(CheckBase):
                                 for x in names:
                                     if x in world.snaps and world.snaps[x].location not in world.store.objects:
                                         world.deleted[x] = world.snaps.pop(x)
+            # -- 3b. ONE Repository object used by several users in turn (re-unlocked), each after the previous one listed:
+            #        what the next user sees must be its own view
+            from replicat.utils import SnapshotListColumn as SC2
+            shared_obj = rep_.new_repo(world.backend('switcher'), 3)
+            for u in r.sample(users, len(users)):
+                with rep_.capture():
+                    await shared_obj.unlock(password=world.users[u].password, key=world.users[u].key)
+                with rep_.capture() as cap:
+                    await shared_obj.list_snapshots(header=False, columns=[SC2.NAME, SC2.NOTE, SC2.FILE_COUNT])
+                rows = [[c.strip() for c in l.split('\t')] for l in cap.stdout.split('\n')[:-1]]
+                fam = world.users[u].family
+                want_names = sorted(n for n, s_ in world.snaps.items() if world.users[s_.user].family == fam)
+                world.count('views_on_a_reused_object')
+                if sorted(row[0] for row in rows) != want_names:
+                    world.finding('C06', f'a Repository object re-unlocked as {u} lists snapshots of another view',
+                                  extra=[x[:10] for x in set(row[0] for row in rows) - set(want_names)][:3],
+                                  missing=[x[:10] for x in set(want_names) - set(row[0] for row in rows)][:3])
+                for row in rows:
+                    s_ = world.snaps.get(row[0])
+                    if s_ is not None and (any(c != '--' for c in row[1:])) != (s_.user == u):
+                        world.finding('C06', f'a Repository object re-unlocked as {u} {"shows" if s_.user != u else "hides"} details of a '
+                                             f'snapshot made under the key of {s_.user}', row=row)
+                        break
+                target = tempfile.mkdtemp(prefix='reuse-', dir=world.scratch)
+                with rep_.capture():
+                    res = await shared_obj.restore(path=Path(target))
+                own_paths = sorted(p for s_ in world.snaps.values() if s_.user == u for p in s_.files)
+                if sorted(set(res.files or [])) != sorted(set(own_paths)):
+                    world.finding('C06', f'a Repository object re-unlocked as {u} restores files of snapshots made under other keys',
+                                  extra=sorted(set(res.files or []) - set(own_paths))[:3])
+                shutil.rmtree(target, ignore_errors=True)
             # -- 4. dedup against same-family users, destructive commands confined ------------------------------
             for u in users:
                 fam = world.users[u].family
